@@ -89,13 +89,23 @@ def run_cmd(cmd, cwd=None, timeout=3600, env=None):
     return p.returncode, p.stdout
 
 
+def modules_of(pid: str):
+    """Props/<pid>.lean plus, when present, Props/<pid>Locks.lean (lock-level theorems that need lemma files which themselves
+    import Props/<pid>.lean); both use namespace TV.<pid>."""
+    out = []
+    for name in (pid, pid + 'Locks'):
+        if os.path.exists(os.path.join(LEAN, 'Tapeverif', 'Props', name + '.lean')):
+            out.append(name)
+    return out
+
+
 def theorems_of(pid: str):
-    """Property theorems = every `theorem` in Props/<pid>.lean (namespace TV.<pid>)."""
-    p = os.path.join(LEAN, 'Tapeverif', 'Props', pid + '.lean')
-    if not os.path.exists(p):
-        return []
-    src = strip_comments(open(p).read())
-    return [f'TV.{pid}.{m.group(1)}' for m in re.finditer(r'^\s*(?:private\s+)?theorem\s+([A-Za-z0-9_\.\']+)', src, re.M)]
+    """Property theorems = every `theorem` in the property's Props modules (namespace TV.<pid>)."""
+    out = []
+    for name in modules_of(pid):
+        src = strip_comments(open(os.path.join(LEAN, 'Tapeverif', 'Props', name + '.lean')).read())
+        out += [f'TV.{pid}.{m.group(1)}' for m in re.finditer(r'^\s*(?:private\s+)?theorem\s+([A-Za-z0-9_\.\']+)', src, re.M)]
+    return out
 
 
 def open_statements(pid: str):
@@ -144,7 +154,7 @@ def build_and_audit(pid: str, tier: str) -> BuildReport:
         rc, out = run_cmd(['lake', 'build', 'tvdriver'], cwd=LEAN)
         rep.driver_ok = rc == 0
         rep.log += out[-4000:] if rc else ''
-        rc, out = run_cmd(['lake', 'build', f'Tapeverif.Props.{pid}'], cwd=LEAN)
+        rc, out = run_cmd(['lake', 'build'] + [f'Tapeverif.Props.{m}' for m in modules_of(pid)], cwd=LEAN)
         rep.props_ok = rc == 0
         rep.log += out[-6000:] if rc else ''
         rep.forbidden = grep_forbidden()
@@ -153,7 +163,8 @@ def build_and_audit(pid: str, tier: str) -> BuildReport:
             os.makedirs(WORK, exist_ok=True)
             af = os.path.join(WORK, f'audit_{pid}_{os.getpid()}.lean')
             with open(af, 'w') as f:
-                f.write(f'import Tapeverif.Props.{pid}\n')
+                for m in modules_of(pid):
+                    f.write(f'import Tapeverif.Props.{m}\n')
                 for t in thms:
                     f.write(f'#print axioms {t}\n')
             rc, out = run_cmd(['lake', 'env', 'lean', af], cwd=LEAN)
@@ -176,7 +187,7 @@ def build_and_audit(pid: str, tier: str) -> BuildReport:
                 rep.axioms[t] = None
             rep.failed_theorems = list(thms)
         if tier == 'thorough' and rep.props_ok:
-            rc, out = run_cmd(['lake', 'env', 'leanchecker', f'Tapeverif.Props.{pid}'], cwd=LEAN, timeout=3600)
+            rc, out = run_cmd(['lake', 'env', 'leanchecker'] + [f'Tapeverif.Props.{m}' for m in modules_of(pid)], cwd=LEAN, timeout=3600)
             rep.leanchecker = out[-500:]
             rep.leanchecker_ok = rc == 0
     return rep
@@ -298,7 +309,7 @@ def write_evidence(ctx: Ctx, res: Result, n_viol: int, extra_assumptions=()):
     cov = {
         'obligations': rep.obligations,
         'discharged': rep.discharged,
-        'checker_cmd': f'cd lean && lake build Tapeverif.Props.{ctx.pid} tvdriver && lake env lean <#print axioms of each theorem>' + (' && lake env leanchecker Tapeverif.Props.' + ctx.pid if ctx.tier == 'thorough' else ''),
+        'checker_cmd': 'cd lean && lake build ' + ' '.join('Tapeverif.Props.' + m for m in modules_of(ctx.pid)) + ' tvdriver && lake env lean <#print axioms of each theorem>' + (' && lake env leanchecker ' + ' '.join('Tapeverif.Props.' + m for m in modules_of(ctx.pid)) if ctx.tier == 'thorough' else ''),
         'trusted_base': TRUSTED_BASE,
         'theorems': {t: a for t, a in rep.axioms.items()},
         'open_statements': open_statements(ctx.pid),
